@@ -86,3 +86,7 @@ Definition drop_removes := drop_removes_form acceptor_drop_always_removes.
 Definition session_has_timer_form (from_header : bool) (has_session_expires lists_supported_timer : bool) : bool :=
   has_session_expires && (from_header || lists_supported_timer).
 Definition session_has_timer := session_has_timer_form session_timer_from_header.
+
+(* ---- C10: does dropping a UsageGuard remove its usage when another thread is inside the dialog layer -------------------- *)
+Definition guard_drop_removes_form (waits_for_lock : bool) (lock_held_elsewhere : bool) : bool := waits_for_lock || negb lock_held_elsewhere.
+Definition guard_drop_removes := guard_drop_removes_form usage_guard_drop_waits.
